@@ -302,7 +302,7 @@ package interpreter
 //@ func (*programState).receiveFromKeptOrDest
 //@   requires [wf] wf(keptOrDest) && amount != nil && val(amount) >= 0
 //@   requires [state] varsOk(s) && receiversOk(s)
-//@   ensures [distributes-all] {C03,C05} err == nil ==> sumMon(s.Receivers, len(s.Receivers)) == old(sumMon(s.Receivers, len(s.Receivers))) + val(amount)
+//@   ensures [distributes-all] {C03,C05,C07} err == nil ==> sumMon(s.Receivers, len(s.Receivers)) == old(sumMon(s.Receivers, len(s.Receivers))) + val(amount)
 //@   ensures [prefix-kept] {C05} err == nil ==> len(s.Receivers) >= old(len(s.Receivers)) && forall(j, 0, old(len(s.Receivers)), s.Receivers[j] == old(s.Receivers[j]))
 //@   ensures [new-receivers] {C02,C05} err == nil ==> newReceiversOk(s, old(len(s.Receivers)), amount)
 //@   ensures [view-unchanged] {C09} forallstr(a, c, bal(s, a, c) == old(bal(s, a, c)))
@@ -314,7 +314,7 @@ package interpreter
 //@ func (*programState).receiveFrom
 //@   requires [wf] wf(destination) && amount != nil && val(amount) >= 0
 //@   requires [state] varsOk(s) && receiversOk(s)
-//@   ensures [distributes-all] {C03,C05} err == nil ==> sumMon(s.Receivers, len(s.Receivers)) == old(sumMon(s.Receivers, len(s.Receivers))) + val(amount)
+//@   ensures [distributes-all] {C03,C05,C07} err == nil ==> sumMon(s.Receivers, len(s.Receivers)) == old(sumMon(s.Receivers, len(s.Receivers))) + val(amount)
 //@   ensures [prefix-kept] {C05} err == nil ==> len(s.Receivers) >= old(len(s.Receivers)) && forall(j, 0, old(len(s.Receivers)), s.Receivers[j] == old(s.Receivers[j]))
 //@   ensures [new-receivers] {C02,C05} err == nil ==> newReceiversOk(s, old(len(s.Receivers)), amount)
 //@   ensures [view-unchanged] {C09} forallstr(a, c, bal(s, a, c) == old(bal(s, a, c)))
